@@ -214,6 +214,37 @@ func HostileCodes(r *RNG, expected string) []string {
 			b[i] = '0' + (b[i]-'0'+1+byte(r.Intn(9)))%10
 			out = append(out, string(b))
 		}
+		// bytes that agree with the right digit in some bits only (same low nibble, same value, high bit set, case-bit flipped):
+		// catches comparisons that mask, parse or normalise instead of comparing byte for byte
+		for i := 0; i < n; i++ {
+			for _, f := range []func(c byte) byte{
+				func(c byte) byte { return c ^ 0x40 }, func(c byte) byte { return c ^ 0x10 }, func(c byte) byte { return c ^ 0x80 },
+				func(c byte) byte { return c ^ 0x20 }, func(c byte) byte { return c - '0' }, func(c byte) byte { return c + 0x40 }, func(c byte) byte { return c | 0xF0 },
+			} {
+				if i%2 == int(r.U64()&1) || n <= 6 {
+					b := []byte(expected)
+					b[i] = f(b[i])
+					out = append(out, string(b))
+				}
+			}
+		}
+		// numeric look-alikes of the same length: sign / space instead of a leading zero, value + 2^32 for 10 digits
+		out = append(out, " "+expected[1:], "+"+expected[1:], expected[:n-1]+" ")
+		if n == 10 {
+			var v uint64
+			for i := 0; i < n; i++ {
+				v = v*10 + uint64(expected[i]-'0')
+			}
+			for _, w := range []uint64{v + 1<<32, v + 1<<31, v + 1<<33} {
+				sw := ""
+				for x := w; x > 0; x /= 10 {
+					sw = string(rune('0'+x%10)) + sw
+				}
+				if len(sw) == n {
+					out = append(out, sw)
+				}
+			}
+		}
 		// non-ASCII digits: full-width and Arabic-Indic, same characters / same byte length
 		fw := ""
 		ai := ""
